@@ -469,7 +469,8 @@ static Result execRaw(int kind, size_t sz, size_t al, size_t param, const std::v
     } else { res = badCase("op"); break; }
   }
   dv::stat("raw_live_at_end", (long)live.size());
-  while (!live.empty() && sh.fail.empty()) release(live.size() - 1, opno + 1);
+  // give everything back (also after a failure: the debug manager aborts at exit on blocks still in use)
+  { std::string first = sh.fail; while (!live.empty()) release(live.size() - 1, opno + 1); if (!first.empty()) sh.fail = first; }
   std::string header = a->header;
   delete a;
   if (!res.impl.empty()) return res;   // bad op
